@@ -316,12 +316,12 @@ static void monitors(int final) {
     int k = kfd_of(id); if (k < 0) continue;
     struct ent* e = &L[k];
     if (!now[k]) { viol("FD-VANISHED", "f%d (kernel %d) is not open any more but nobody logged a close", e->id, k); e->live = 0; continue; }
-    if (e->bylib) { int fl = getfd_flags(k); if (fl < 0 || !(fl & FD_CLOEXEC)) viol("NO-CLOEXEC", "f%d created by libuv lacks FD_CLOEXEC at API return", e->id); }
+    if (e->bylib) { int fl = getfd_flags(k); if ((fl < 0 || !(fl & FD_CLOEXEC)) && !(e->reported & 2) && (e->reported |= 2)) viol("NO-CLOEXEC", "f%d created by libuv lacks FD_CLOEXEC at API return", e->id); }
     char ow[256]; owners_of(k, ow, sizeof ow);
     if (!ow[0] && e->user && e->xfer) e->xfer = 0;   /* handle closed, stdio descriptor left open: back to the caller */
     if (strchr(ow, '+')) viol("OWNER-DUP", "f%d referenced by %s", e->id, ow);
     const char* o = ow[0] ? ow : (e->user ? "U" : e->glob ? "G" : "-");
-    if (!strcmp(o, "-") && !e->reported++) viol("LEAK", "f%d created by libuv is open at API return but no loop/handle field refers to it and it was not handed to the caller", e->id);
+    if (!strcmp(o, "-") && !(e->reported & 1) && (e->reported |= 1)) viol("LEAK", "f%d created by libuv is open at API return but no loop/handle field refers to it and it was not handed to the caller", e->id);
     n += snprintf(line + n, sizeof line - n, " f%d:%s", e->id, o);
     if (n > (int) sizeof line - 64) break;
   }
@@ -503,6 +503,7 @@ int main(int argc, char** argv) {
       int rc = UVCALL(uv_accept((uv_stream_t*) HS[s].h, (uv_stream_t*) HS[c].h)); outf("ret %s", R(rc)); outf("# rc=%d", rc);
     } else if (!strcmp(op, "close") && nw == 2) {
       int i = hid(w[1]); if (!live_h(i, -1)) { outf("bad-op"); goto after; }
+      outf("# close kind=%s", KN[HS[i].kind]);
       in_uv = 1; do_uvclose(i); in_uv = 0; outf("ret 0");
     } else if (!strcmp(op, "run")) {
       in_uv = 1;
